@@ -37,6 +37,7 @@ type Obligation struct {
 	smtText  string
 	relaxed  bool // quantified assumptions dropped (model search only)
 	RelaxedModel bool
+	Slow     bool
 	Reveal   []string
 	Vacuous  bool
 	IsCanary bool
